@@ -42,7 +42,11 @@ instance (a b : Key) : Decidable (a.Clash b) := by
   unfold Key.Clash Key.shareShort Key.shareLong; infer_instance
 
 theorem cfg_wf : cfg.WellFormed := by
-  refine ⟨?_, ?_, ?_, ?_⟩
+  refine ⟨?_, ?_, ?_, ?_, ?_⟩
+  rotate_left 4
+  · intro g hg
+    simp only [cfg, List.mem_cons, List.not_mem_nil, or_false] at hg; subst hg
+    exact ⟨fun h => (by cases h), fun h => (by cases h)⟩
   · unfold Disjoint; decide
   · intro d hd c hc k hk
     simp only [cfg, List.mem_cons, List.not_mem_nil, or_false] at hd
@@ -101,7 +105,7 @@ def cfgVec : Cfg :=
 
 theorem obeys_nil_constraints {cfg : Cfg} {inits : List DVal} {us : List Use}
     (hm : ObeysMandatory cfg inits us) (hv : ObeysValues cfg us) (hc : ObeysCardinality cfg us)
-    (hn : ∀ d ∈ cfg.args, d.constraints = []) (hg : ObeysGlobals cfg us) : Obeys cfg inits us := by
+    (hn : ∀ d ∈ cfg.args, d.constraints = []) (hg : ObeysGlobals cfg inits us) : Obeys cfg inits us := by
   refine ⟨hm, hv, hc, ?_, ?_, hg⟩
   · intro p q u w d ks k _ _ _ _ hd hcc
     rw [hn d (List.mem_of_getElem? hd)] at hcc; cases hcc
@@ -190,5 +194,71 @@ theorem level_twice_accepted :
     (evalUses cfgLevel (cfgLevel.initState [.level 0]) [⟨0, [], true⟩, ⟨0, [], true⟩]).isOk = true := by
   refine ⟨?_, by decide⟩
   simp [valsOf, LevelValuesOk, LevelStepOk, cfgLevel, runChecks]
+
+/-! ### value constraints and the pattern check -/
+
+def kP : Key := ⟨some 'p', "primary".toList⟩
+def kB : Key := ⟨some 'b', "backup".toList⟩
+def kI : Key := ⟨some 'i', "include".toList⟩
+def kX : Key := ⟨some 'x', "exclude".toList⟩
+def kM : Key := ⟨some 'm', "name".toList⟩
+
+/-- the compiled pattern `[a-z]+[0-9]?` -/
+def patName : Regex.Re := (Regex.parse "[a-z]+[0-9]?".toList).getD .empty
+
+/-- `-p,--primary` and `-b,--backup` (int) must differ; the lists `-i,--include` and `-x,--exclude`
+    must be disjoint; `-m,--name` (string) must match `[a-z]+[0-9]?` -/
+def cfgVal : Cfg :=
+  { args := [
+      { key := kP, kind := .int, vmode := .required, card := .max 1 },
+      { key := kB, kind := .int, vmode := .required, card := .max 1 },
+      { key := kI, kind := .vecInt, vmode := .required, card := .unlimited },
+      { key := kX, kind := .vecInt, vmode := .required, card := .unlimited },
+      { key := kM, kind := .str, vmode := .required, card := .max 1, checks := [.pattern patName] }],
+    globals := [{ kind := .differ, keys := [kP, kB] }, { kind := .disjoint, keys := [kI, kX] }] }
+
+def initsVal : List DVal := [.int 0, .int 0, .vec [], .vec [], .str []]
+
+def runVal (us : List Use) : Res HState := evalUses cfgVal (cfgVal.initState initsVal) us
+
+theorem cfgVal_wf : cfgVal.WellFormed := by
+  refine ⟨?_, ?_, ?_, ?_, ?_⟩
+  · unfold Disjoint; decide
+  · intro d hd c hc
+    simp only [cfgVal, List.mem_cons, List.not_mem_nil, or_false] at hd
+    rcases hd with rfl | rfl | rfl | rfl | rfl <;> cases hc
+  · decide
+  · decide
+  · intro g hg
+    simp only [cfgVal, List.mem_cons, List.not_mem_nil, or_false] at hg
+    rcases hg with rfl | rfl
+    · refine ⟨fun _ => ⟨.int, Or.inl rfl, ?_⟩, fun h => (by cases h)⟩
+      intro k hk
+      simp only [List.mem_cons, List.not_mem_nil, or_false] at hk
+      rcases hk with rfl | rfl
+      · exact ⟨0, _, rfl, by decide, rfl⟩
+      · exact ⟨1, _, rfl, by decide, rfl⟩
+    · refine ⟨fun h => (by cases h), fun _ => ⟨rfl, ?_⟩⟩
+      intro k hk
+      simp only [List.mem_cons, List.not_mem_nil, or_false] at hk
+      rcases hk with rfl | rfl
+      · exact ⟨2, _, rfl, by decide, rfl⟩
+      · exact ⟨3, _, rfl, by decide, rfl⟩
+
+/-- differ over two flags passes `validValueArguments` (same destination type), but the end check
+    cannot compare them: as soon as both are given `compareValue` throws std::invalid_argument —
+    which says nothing about the values.  (`Cfg.WellFormed.valueArgs` asks for int / string.) -/
+theorem differ_flags_invalid_argument :
+    (match evalUses
+      { args := [{ key := ⟨some 'a', []⟩, kind := .flag, vmode := .none, card := .unlimited },
+                 { key := ⟨some 'b', []⟩, kind := .flag, vmode := .none, card := .unlimited }],
+        globals := [{ kind := .differ, keys := [⟨some 'a', []⟩, ⟨some 'b', []⟩] }] }
+      (Cfg.initState
+        { args := [{ key := ⟨some 'a', []⟩, kind := .flag, vmode := .none, card := .unlimited },
+                   { key := ⟨some 'b', []⟩, kind := .flag, vmode := .none, card := .unlimited }],
+          globals := [{ kind := .differ, keys := [⟨some 'a', []⟩, ⟨some 'b', []⟩] }] } [.flag false, .flag false])
+      [⟨0, [], true⟩, ⟨1, [], true⟩] with
+    | .throw .invalid_argument => true
+    | _ => false) = true := by decide
 
 end CelmaVerif.ProgArgs.RulesExample
